@@ -24,5 +24,6 @@ INVARIANT RetentionExact
 INVARIANT SerialEquivalence
 INVARIANT VersionsArePrefixes
 INVARIANT ReadersSeeCommitted
+INVARIANT PinnedRetained
 INVARIANT PublishedIsCommitted
 PROPERTY NoCuts
